@@ -14,7 +14,7 @@ def build(name_prefix, n, bases, root):
         for perm in ([bs] + [list(p) for p in itertools.permutations(bs)][:24]):
             try:
                 made = type('%s%d' % (name_prefix, i), tuple(cls[b] for b in perm) or (root,),
-                            {'process': lambda self, dt=1: None} if root is not object else {})
+                            {'process': lambda self, dt=1: None} if root is not object else {'__bool__': lambda self: False})
                 break
             except TypeError:
                 continue
@@ -29,7 +29,7 @@ def build_one(name_prefix, i, bases, cls, root):
     for perm in ([bs] + [list(p) for p in itertools.permutations(bs)][:24]):
         try:
             return type('%s%d' % (name_prefix, i), tuple(cls[b] for b in perm) or (root,),
-                        {'process': lambda self, dt=1: None} if root is not object else {})
+                        {'process': lambda self, dt=1: None} if root is not object else {'__bool__': lambda self: False})
         except TypeError:
             continue
     return None
@@ -83,6 +83,10 @@ class TypeQueriesAdapter:
             w.create_entity(C[n](), entity_id=1)
         if n in init['procs']:
             w.add_processor(P[n]())
+        # a second entity owning one component of exactly every class: whatever it owns must not change what the
+        # queries say about entity 1 (and get() lists its components too)
+        for i in sorted(C):
+            w.add_component(2, C[i]())
         self.C, self.P = C, P
         self.built += 1
         self.cn = {c: i for i, c in self.C.items()}
@@ -100,7 +104,7 @@ class TypeQueriesAdapter:
             r, ex = guarded(lambda: w.remove_processor(self.P[args[0]]))
             ret = ('proc', args[0], 0 if r is None else self.pn.get(type(r), -1)) if ex is None else ('EXC', type(ex).__name__, 0)
         obs = {'ret': ret}
-        obs['get'] = {T: tuple(sorted(self.cn.get(type(c), -1) for _e, c in w.get(cls))) for T, cls in self.C.items()}
+        obs['get'] = {T: tuple(sorted((e, self.cn.get(type(c), -1)) for e, c in w.get(cls))) for T, cls in self.C.items()}
         gc = {}
         for T, cls in self.C.items():
             r = w.get_component(1, cls)
@@ -137,7 +141,7 @@ class TypeQueriesAdapter:
 
         return {
             'ret': tuple(post['last']),
-            'get': {T: tuple(sorted(sub[T] & comps)) for T in range(1, n + 1)},
+            'get': {T: tuple(sorted([(1, t) for t in sub[T] & comps] + [(2, t) for t in sub[T]])) for T in range(1, n + 1)},
             'get_component': single(comps),
             'has': {T: bool(sub[T] & comps) for T in range(1, n + 1)},
             'get_processor': single(procs),
